@@ -1,7 +1,8 @@
 """Script generator for C05 (LUDecomposition.h, MatrixTools::inv / det).
 
 Every case: `case <tag> <storage of A> <storage of B> <storage of X>` followed by
-  lu m n A | solve mb nx B | solvev mb b | inv m n A | det m n A | dett n A | detmul n A B
+  lu m n A | solve mb nx B | solvev mb b | inv m n A | invip m n A | det m n A | dett n A | detmul n A B
+  | solveip mb nx B (solve(B, B)) | solvevip mb b (solve(b, b)) | xset r c X | xvset k x
 Matrix families (n = 1..10): integer entries in [-9,9]; dyadic entries (all arithmetic exact, so
 exact zero pivots occur); permuted triangular; rank-deficient (integer products of thin factors,
 repeated / zero rows and columns); prescribed singular values (condition number 1..1e6 and
@@ -9,6 +10,13 @@ beyond, up to numerically singular); diagonal matrices at the singularity thresh
 rectangular m > n; a few inputs on which the C++ has undefined behaviour (m < n, no right-hand
 side column, empty matrix) — the model answers `ub`, the sanitised harness must abort.
 Right-hand sides have 1..4 columns; a few have the wrong height.
+
+In/out parameters: the output matrix `X` of solve / inv and the output vector `x` of the vector
+overload live as long as the case, so every call receives them in the state the previous calls
+left them (inv's n x n result feeds a later 1..4 column solve, a 4 column solve a 2 column one, a
+refused call leaves them alone ...).  `xset r c <entries>` / `xvset k <entries>` put them into an
+explicit prior state first: same number of rows and more columns than the result, larger in both
+directions, smaller, equal shape with junk, an empty dimension.
 """
 import random, struct, math
 
@@ -111,16 +119,52 @@ def nextafter(x, up):
     return struct.unpack(">d", struct.pack(">q", b))[0]
 
 
+JUNK = [7.0, -7.0, 0.5, 1e9, -3.25, 123456.0]
+
+
+def xset_line(rng, n, nx):
+    """prior state of the output matrix for a result of shape n x nx"""
+    k = rng.random()
+    if k < 0.30: r, c = n, nx + rng.randint(1, 4)            # enough rows, more columns than needed
+    elif k < 0.45: r, c = n + rng.randint(1, 3), nx + rng.randint(0, 3)
+    elif k < 0.58: r, c = n, nx                              # right shape, junk contents
+    elif k < 0.68: r, c = max(0, n - rng.randint(1, 2)), nx
+    elif k < 0.78: r, c = n, max(0, nx - 1)
+    elif k < 0.90: r, c = rng.randint(0, 12), rng.randint(0, 6)
+    else: r, c = rng.choice([(0, 0), (0, 3), (3, 0)])
+    return "xset " + mat_mn(r, c, [[rng.choice(JUNK) for _ in range(c)] for _ in range(r)])
+
+
+def xvset_line(rng, n):
+    k = rng.choice([n, n, n + rng.randint(1, 3), max(0, n - 1), 0, rng.randint(0, 12)])
+    return ("xvset %d %s" % (k, " ".join(hx(rng.choice(JUNK)) for _ in range(k)))).strip()
+
+
 def square_case(rng, tag, A, integer, ops_extra=True):
     n = len(A)
     st = [rng.choice(STOR) for _ in range(3)]
     ops = ["lu " + mat(A)]
-    for _ in range(rng.randint(1, 2)):
+    inv_first = ops_extra and rng.random() < 0.4
+    if inv_first:
+        if rng.random() < 0.3:
+            ops.append(xset_line(rng, n, n))
+        ops.append("inv " + mat(A))                         # its n x n result is the prior state of the solves
+    for _ in range(rng.randint(1, 3)):
         nx = rng.randint(1, 4)
+        if rng.random() < 0.45:
+            ops.append(xset_line(rng, n, nx))
         ops.append("solve " + mat(rhs(rng, n, nx, integer and rng.random() < 0.7)))
-    if rng.random() < 0.6:
+    for _ in range(rng.choice([0, 1, 1, 2])):
+        if rng.random() < 0.5:
+            ops.append(xvset_line(rng, n))
         b = rhs(rng, n, 1, integer and rng.random() < 0.7)
         ops.append("solvev %d %s" % (n, " ".join(hx(r_[0]) for r_ in b)))
+    if rng.random() < 0.25:
+        nx = rng.randint(1, 4)                               # solve(B, B): the right-hand side is the output
+        ops.append("solveip " + mat(rhs(rng, n, nx, integer and rng.random() < 0.7)))
+    if rng.random() < 0.15:
+        b = rhs(rng, n, 1, integer and rng.random() < 0.7)
+        ops.append("solvevip %d %s" % (n, " ".join(hx(r_[0]) for r_ in b)))
     if rng.random() < 0.04:
         mb = rng.choice([x for x in range(0, 12) if x != n])
         ops.append(("solvev %d %s" % (mb, " ".join(hx(rng.randint(-9, 9)) for _ in range(mb)))).strip())
@@ -130,7 +174,15 @@ def square_case(rng, tag, A, integer, ops_extra=True):
         nx = rng.randint(1, 3)
         ops.append("solve " + mat_mn(mb, nx, rhs(rng, mb, nx, True)))
     if ops_extra:
-        ops.append("inv " + mat(A))
+        if not inv_first:
+            if rng.random() < 0.4:
+                ops.append(xset_line(rng, n, n))
+            ops.append("inv " + mat(A))
+        if rng.random() < 0.15:
+            ops.append("invip " + mat(A))                    # in-place inverse: inv(A, A)
+        if r > 0.9:
+            nx = rng.randint(1, 4)                           # one more solve after everything else
+            ops.append("solve " + mat(rhs(rng, n, nx, integer)))
         ops.append("det " + mat(A))
         if rng.random() < 0.5:
             ops.append("dett %d %s" % (n, " ".join(hx(v) for r_ in A for v in r_)))
@@ -207,7 +259,10 @@ def compare(op_line, impl, model):
 def coverage_extra(cases, answers):
     sizes, fam, stor, kappa, nxs = {}, {}, {}, {}, {}
     swaps = zero_piv = zerodiv = solved = ub = 0
+    prior = {"empty": 0, "same_shape": 0, "same_rows_more_cols": 0, "same_rows_fewer_cols": 0, "other_rows": 0}
+    prior_v = {"empty": 0, "same_len": 0, "longer": 0, "shorter": 0}
     for c, a in zip(cases, answers):
+        xs = (0, 0); xl = 0; nlu = None
         head = c[0].split()
         tag = head[1]
         f = "".join(ch for ch in tag.split("_")[0] if not ch.isdigit())
@@ -231,9 +286,41 @@ def coverage_extra(cases, answers):
                     nn = int(u[1]); vals = u[2:]
                     if any(vals[i * nn + i] in ("0000000000000000", "8000000000000000") for i in range(nn)):
                         zero_piv += 1
+            if t[0] == "lu":
+                nlu = int(t[1]) if t[1] == t[2] else None
+            if t[0] == "solvevip":
+                xl = int(t[1])
+            if t[0] in ("xset", "invip", "solveip"):
+                xs = (int(t[1]), int(t[2]))
+                if t[0] != "xset" and r.startswith("minD"):
+                    u = r.split(";")[1].split()
+                    xs = (int(u[1]), int(u[2]))
+            if t[0] == "xvset":
+                xl = int(t[1])
+            want = None
+            if t[0] == "solve" and nlu is not None and int(t[1]) == nlu:
+                want = (nlu, int(t[2]))
+            if t[0] == "inv" and t[1] == t[2]:
+                want = (int(t[1]), int(t[1]))
+            if want is not None:
+                if xs[0] == 0 or xs[1] == 0: prior["empty"] += 1
+                elif xs == want: prior["same_shape"] += 1
+                elif xs[0] == want[0] and xs[1] > want[1]: prior["same_rows_more_cols"] += 1
+                elif xs[0] == want[0]: prior["same_rows_fewer_cols"] += 1
+                else: prior["other_rows"] += 1
+                if r.startswith("minD"):
+                    u = r.split(";")[1].split()
+                    xs = (int(u[1]), int(u[2]))
+            if t[0] == "solvev" and nlu is not None:
+                if xl == 0: prior_v["empty"] += 1
+                elif xl == nlu: prior_v["same_len"] += 1
+                elif xl > nlu: prior_v["longer"] += 1
+                else: prior_v["shorter"] += 1
+                if r.startswith("minD"):
+                    xl = int(r.split(";")[1].split()[1])
             if t[0] == "solve":
                 nxs[t[2]] = nxs.get(t[2], 0) + 1
-            if t[0] in ("solve", "solvev", "inv"):
+            if t[0] in ("solve", "solvev", "inv", "invip", "solveip", "solvevip"):
                 if r == "exc:zerodiv": zerodiv += 1
                 elif r.startswith("minD"): solved += 1
             if r.startswith("crash"): ub += 1
@@ -241,4 +328,5 @@ def coverage_extra(cases, answers):
             "prescribed_condition_numbers": dict(sorted(kappa.items(), key=lambda kv: float(kv[0]))),
             "rhs_columns": dict(sorted(nxs.items())),
             "factorisations_with_row_exchange": swaps, "factorisations_with_exact_zero_pivot": zero_piv,
+            "output_matrix_prior_state": prior, "output_vector_prior_state": prior_v,
             "solves_returned": solved, "solves_refused_singular": zerodiv, "ub_inputs_aborted": ub}
